@@ -63,7 +63,7 @@ def explore_scenario(h, desc, tier, profile=False):
     res = dict(desc=desc, paths=0, decisions=0, obligations=0, identity=0, solver=0, structural=0, failures=[],
                inconclusive=[], unknown_branches=0, truncated=False, solver_time=0.0, validated=0,
                errors=[], functions=[], stubs=[], cut_paths=0)
-    M = mode.SymMode(obligation_timeout_ms=20000 if tier == "quick" else 120000)
+    M = mode.SymMode(obligation_timeout_ms=10000 if tier == "quick" else 60000)
     M.key_prefix = desc.get("family", "") + ":"
     stubs.install()
     path_pcs = []
@@ -149,6 +149,12 @@ def explore_scenario(h, desc, tier, profile=False):
         if pcs is not None and f.kind in ("structural", "exception"):
             tried.append(_beautify(core, pcs, vals))
         tried.append(vals)
+        if pcs is not None and desc.get("amplify"):
+            # same path, all symbols scaled down: magnifies defects that hide behind absolute tolerances
+            for sc in (Fraction(1, 100000), Fraction(1, 1000)):
+                cand = {k: v * sc for k, v in vals.items()}
+                if all(core.eval_under(c, cand) is True for c in pcs):
+                    tried.insert(0, cand)
         reproduced = None
         for cand in tried:
             Mc, err = run_concrete(h, desc, cand)
